@@ -195,6 +195,11 @@ var sparseSeqs = [][]cmd{
 	{{Verb: "RMD", Arg: "a"}, {Verb: "RMD", Arg: "../.."}},
 	{{Verb: "RMD", Arg: "/a"}, {Verb: "CDUP"}, {Verb: "RMD", Arg: ""}},
 	{{Verb: "CWD", Arg: "a"}, {Verb: "RMD", Arg: "/a"}, {Verb: "RMD", Arg: ".."}, {Verb: "PWD"}},
+	{{Verb: "CWD", Arg: "a"}, {Verb: "RMD", Arg: "/a"}, {Verb: "RMD", Arg: "/"}},
+	{{Verb: "CWD", Arg: "a"}, {Verb: "RMD", Arg: "/a"}, {Verb: "DELE", Arg: "/"}},
+	{{Verb: "CWD", Arg: "a"}, {Verb: "RMD", Arg: "/a"}, {Verb: "RMD", Arg: "/a/.."}},
+	{{Verb: "CWD", Arg: "a"}, {Verb: "RMD", Arg: "../a"}, {Verb: "RN", Arg: "/", Arg2: "/x"}},
+	{{Verb: "MKD", Arg: "a/c"}, {Verb: "CWD", Arg: "a/c"}, {Verb: "RMD", Arg: "/a/c"}, {Verb: "RMD", Arg: "/a"}, {Verb: "RMD", Arg: "//"}},
 	{{Verb: "RN", Arg: "/", Arg2: "/a/x"}},
 	{{Verb: "RN", Arg: "/", Arg2: "../moved"}},
 	{{Verb: "RN", Arg: "a", Arg2: "/"}},
